@@ -172,6 +172,18 @@ func runC13(c *Ctx) {
 	for _, s := range []string{"me======a", "me======", "me=======", "me=========", "aaaaaaaame======", "me======aaaaaaaa", "me\xff\xff\xff\xff\xff\xff", "m", "mee", "meeeee", "QQ==Q", "QQ==QQ==", "QQ=\n=", "QR==", "=", "==", "====", "========", "\n", "\r\n\r\n"} {
 		c13Decode(c, []byte(s))
 	}
+	// line breaks interleaved with padding and stray data: the decoders skip CR/LF everywhere,
+	// so the library's own checks must look through them too
+	for _, body := range []string{"me======", "mfrgg===", "mfrggzdf", "QQ==", "QUI=", "QUJD"} {
+		for k := 1; k <= 10; k++ {
+			nl := strings.Repeat("\r\n", k)[:k]
+			for _, stray := range []string{"a", "!!", "=", "me======", ""} {
+				c13Decode(c, []byte(body+nl+stray))
+				c13Decode(c, []byte(body[:len(body)-1]+nl+body[len(body)-1:]+nl+stray))
+				c13Decode(c, []byte(nl+body+nl+nl+stray))
+			}
+		}
+	}
 	for i := 0; i < c.N(1500, 50000); i++ {
 		n := r.Intn(40)
 		s := make([]byte, n)
